@@ -337,6 +337,11 @@ func strGmatchNext(L *LState, md *strMatchData) int {
 func strGmatch(L *LState) int {
 	str := L.CheckString(1)
 	pattern := L.CheckString(2)
+	if strings.HasPrefix(pattern, "^") {
+		// in gmatch a leading '^' is not an anchor (it would prevent the iteration): lstrlib's gmatch_aux hands
+		// the pattern to the matcher unstripped, where '^' is an ordinary character
+		pattern = "%" + pattern
+	}
 	mds, err := pm.Find(pattern, []byte(str), 0, -1)
 	if err != nil {
 		L.RaiseError(err.Error())
